@@ -10,6 +10,11 @@ CHECKS = {
   text="Exploration: each generated model is encoded by the SUT and read back by an independently written decoder (fields, truthful HdrLen/PayloadLen/UDP length, zero reserved bits, checksum over pseudo-header||message), decoded again by the SUT (equal model, no rest); encoding into a dirty buffer must equal encoding into a fresh Vec; canonical byte strings produced by the reference encoder must decode and re-encode identically; models that cannot be represented must be rejected (any accepted model has to pass all of the above).",
   note="Reference decoder written from the SCION header/SCMP diagrams; IPv4/IPv6 host semantics not interpreted; SCMP error models truncate their quote by design (checked as maximal prefix + re-encode stability); extension headers (HBH/E2E) are outside the SDK's model and not generated.",
   design="DESIGN.md §3 C03"),
+ "C11": dict(
+  technique="exhaustive enumeration of small segment shapes/directions + proptest random authentic paths from an independent AES-CMAC beacon chain with per-AS keys (forward walk, reversal, walk back, SegID == reference beta at every hop); single-bit tampering must be detected by the owning AS; stateful exploration of ingress/egress step sequences on arbitrary parseable paths with atomicity/monotonicity invariants",
+  text="Exploration with exhaustive cores: all combinations of 1-3 segments x 2-3 hops x travel directions (and the peering variant) with fresh keys, every class of authenticated-bit flip on them; random paths up to 21 hops per segment with arbitrary cuts (shortcut/on-path shapes); random step sequences (ingress internal/external, egress; no validator / MAC validator / always-failing validator) over all small segment-length shapes and pointer values: AdvanceError => bytes identical, success => pointers monotone and inside the path, egress strictly advances, the ingress+egress router loop terminates within #hop-fields AS steps.",
+  note="AES/CMAC primitives trusted; known finding (open): paths crossing a peering link never verify because advance_* has no peering support; SCMP router-alert handling is not asserted.",
+  design="DESIGN.md §3 C11"),
  "C12": dict(
   technique="exhaustive enumeration of small path shapes x all pointer positions + proptest random paths; differential view vs model vs an independent reference (reversal, expiry, interfaces); metamorphic (reverse twice = identity); atomicity oracle (Err => operand byte-identical) on all view-accepted byte strings",
   text="Exploration with exhaustive cores: every well-formed standard path with <=3 segments x <=3 hops at every hop/info position (random up to 64 hops) is taken through every operation offered on both representations and compared three ways (view, model, reference); every parseable standard-path byte string with segment lengths <=3 and every pointer value (random beyond) is taken through all fallible operations: an error must leave bytes, model and ScionPath (endpoints, metadata, fingerprints) untouched and nothing may panic; one-hop view/model operations are compared likewise.",
